@@ -293,6 +293,28 @@ Theorem C03_walk_text_tokens : forall o v d n r txt r', o_value_mapping o = fals
 Proof. exact walk_text_tokens. Qed.
 Print Assumptions C03_walk_text_tokens.
 
+(* ================================================================== (G) string escaping tables from the Go source *)
+(* internal/rt SafeSet / Hex and the ASCII step of the portable quoteString (gen/Gen_rt.v, gen/Gen_jsonportable.v, regenerated from the
+   Go text on every build) against esc_byte, the per-byte escaping behind quote_ref *)
+From DG Require Gen_rt Gen_json Gen_jsonportable Check20g GenJsonProofs.
+
+Theorem C03_escape_tables_from_source :
+  (forall b, 0 <= b < 128 -> Gen_rt.SafeSet b = CaseFormat.bytes_eqb (esc_byte b) [b]) /\
+  (forall d, 0 <= d < 16 -> Gen_rt.Hex d = hex_digit d) /\
+  (forall c, 0 <= c < 256 -> Gen_json.IsSpace c = is_ws c).
+Proof. split; [exact GenJsonProofs.SafeSet_is_unescaped|]. split; [exact GenJsonProofs.Hex_is_hex_digit | exact GenJsonProofs.IsSpace_is_ws]. Qed.
+Print Assumptions C03_escape_tables_from_source.
+
+(* one ASCII byte through quoteString: a byte esc_byte leaves alone stays pending, any other byte flushes the pending run and appends
+   exactly esc_byte b *)
+Theorem C03_quoteString_ascii_from_source :
+  forall e s start i b, 0 <= b < 128 -> 0 <= i < 2 ^ 62 ->
+  Gen_jsonportable.quoteString_ascii e s start i b =
+    if CaseFormat.bytes_eqb (esc_byte b) [b] then (Gen_jsonportable.Out_continue, i + 1, e, start)
+    else (Gen_jsonportable.Out_continue, i + 1, GenJsonProofs.pending e s start i ++ esc_byte b, i + 1).
+Proof. exact GenJsonProofs.quoteString_ascii_is_esc_byte. Qed.
+Print Assumptions C03_quoteString_ascii_from_source.
+
 (* ---- the number reader that judges the float text is correctly rounded (proofs/FpRound.v, Dec2FloatCorrect.v) ---- *)
 From DG Require Dec2FloatCorrect.
 Theorem C03_dec2f64_correct : forall d, f64_rounds_to d (dec2f64 d) = true.
